@@ -195,7 +195,7 @@ def grid_alphabet(r):
         {"op": "tf", "mode": "L", "T": T1}, {"op": "tf", "mode": "R", "T": T1}, {"op": "tf", "mode": "P", "T": T1},
         {"op": "tf", "mode": "L", "T": S2}, {"op": "tf", "mode": "R", "T": S2}, {"op": "tf", "mode": "P", "T": S2},
         {"op": "sc", "s": 2.0},
-        {"op": "red", "sel": [0.0, 0.7]}, {"op": "ds", "n": 2}, {"op": "mf", "d": 3.0, "a": 4.0},
+        {"op": "red", "sel": [0.0, 0.7]}, {"op": "ds", "n": 2}, {"op": "mf", "d": 3.0, "a": 4.0}, {"op": "mf", "d": 1e9, "a": 0.4, "deg": True},
         {"op": "crop", "lo": 0.4, "hi": 0.99},
         {"op": "al", "mode": "s", "ref_seed": 5, "grid": True, "n": -1}, {"op": "ao", "ref": ref},
         {"op": "pj", "plane": "xy"}, {"op": "cp"}, {"op": "cp", "side": True}, {"op": "tf", "mode": "L", "T": T1, "lp": True},
@@ -285,7 +285,8 @@ def rand_ops(r, n, timed, length):
         elif k < 0.63:
             ops.append({"op": "ds", "n": r.choice([1, 2, 3, 5, 17, 100, 0])})
         elif k < 0.68:
-            ops.append({"op": "mf", "d": r.choice([0.0, 0.05, 1.0, 10.0]), "a": r.choice([0.0, 0.1, 1.0, 4.0])})
+            ops.append({"op": "mf", "d": r.choice([0.0, 0.05, 1.0, 10.0, 1e9]), "a": r.choice([0.0, 0.1, 0.4, 1.0, 4.0]),
+                        **({"deg": True} if r.random() < 0.5 else {})})
         elif k < 0.73 and timed:
             lo = r.random() * 0.6
             ops.append({"op": "crop", "lo": lo, "hi": min(0.999, lo + r.random() * 0.6)})
@@ -535,14 +536,21 @@ def run_impl(case):
                 tok = f"ds {N} {core.natlist(ids)}"
                 obj.downsample(N)
             elif k == "mf":
+                # the angle threshold in radians (default) or, as evo's command lines pass it, in degrees (`deg`): the same
+                # poses must be kept; the expected ids come from the filter function itself on a copy
+                deg = bool(op.get("deg"))
+                a_arg = float(np.rad2deg(op["a"])) if deg else op["a"]
                 try:
-                    ids = [int(i) for i in filters.filter_by_motion(copy.deepcopy(obj).poses_se3, op["d"], op["a"])]
+                    ids = [int(i) for i in filters.filter_by_motion(copy.deepcopy(obj).poses_se3, op["d"], a_arg, deg)]
                     tok = f"mf {core.natlist(ids)}"
                     info["ids"] = ids
                 except filters.FilterException:
                     tok, ignore = "rd se3", True      # poses_se3 is evaluated (and cached) before the filter refuses
                 try:
-                    obj.motion_filter(op["d"], op["a"])
+                    if deg:
+                        obj.motion_filter(op["d"], a_arg, True)
+                    else:
+                        obj.motion_filter(op["d"], op["a"])
                 except filters.FilterException:
                     out = "E_FILTER"
             elif k == "crop":
